@@ -64,7 +64,11 @@ func verifC06Run(conn *verifStreamConn, cl CipherList, cache *ReplayCache, wantS
 	h.SetTargetDialer(dialer)
 	m := &verifTCPMetrics{}
 	t0 := time.Now()
-	h.Handle(context.Background(), conn, m)
+	ctx := context.Background()
+	if verifC06Ctx != nil {
+		ctx = verifC06Ctx
+	}
+	h.Handle(ctx, conn, m)
 	t1 := time.Now()
 
 	verifAssert("C06.no-write", conn.writeCalls == 0 && len(conn.written) == 0)
@@ -102,6 +106,8 @@ var verifProbeLens = []int{0, 1, 49, 50, 51, 73}
 // the other harnesses check that the single deadline call precedes the first read (so it cannot
 // depend on content)
 var verifDeadlineValue = false
+
+var verifC06Ctx context.Context
 
 // arbitrary bytes of the classic probe lengths, delivered in one or two reads
 func VH_C06_random() {
@@ -181,12 +187,18 @@ func verifC06ReplayRun(conn *verifStreamConn, cl CipherList, cache *ReplayCache,
 // whether or not the replay history is enabled
 func VH_C08_reflected() {
 	cl, specs, entries := verifMakeList(1+verifChoice("nkeys", 2), 2, false)
-	key := verifKey(specs[0].cipher, verifSecrets[specs[0].secret])
-	// the client builds its stream with the *server's* salt generator for that key
+	// any entry of the list, in particular one that follows an entry with the same secret
+	which := verifChoice("which", len(specs))
+	for i := 0; i < which; i++ {
+		verifAssume(specs[i] != specs[which]) // the first entry of a class is the one that matches
+	}
+	key := verifKey(specs[which].cipher, verifSecrets[specs[which].secret])
+	// the client builds its stream with the server's own mark for that key (cipher and secret)
 	buf := &verifBuf{}
-	w := verifNewWriterWithSalt(buf, key, entries[0].SaltGenerator)
+	w := verifNewWriterWithSalt(buf, key, NewServerSaltGenerator(verifSecrets[specs[which].secret]))
 	w.Write([]byte{1, 93, 184, 216, 34, 0, 80, 'x', 'y'})
 	marked := key.SaltSize() >= 20
+	_ = entries
 	var cache *ReplayCache
 	switch verifChoice("cache", 3) {
 	case 1:
@@ -274,4 +286,116 @@ func VH_C06_badchunk() {
 	verifAssert("C06.badchunk.target-fin-sent", fin >= 0)
 	verifAssert("C06.badchunk.drained-before-fin", end >= 0 && end < fin && conn.bytesRead == len(stream)+len(more))
 	verifReach("C06.badchunk.done", true)
+}
+
+// the listener that accepted a probe goes away (its context is cancelled, as StreamServe does on
+// shutdown or reload) while the probe is being absorbed: the probe is still read to its end and
+// closed at its own deadline, not earlier
+func VH_C06_cancel_during_absorb() {
+	cl, _, _ := verifMakeList(1, 2, false)
+	ctx, cancel := contextWithCancel()
+	conn := &verifStreamConn{name: "client", remote: &net.TCPAddr{IP: net.IPv4(203, 0, 113, 5), Port: 50000}}
+	conn.reads = []verifSRead{{data: verifBytes("p1", 60)}, {data: verifBytes("p2", 20)}, {data: verifBytes("p3", 5)}}
+	at := 2 + verifChoice("cancel-at-read", 3)
+	conn.onRead = func(call int) {
+		if call == at {
+			cancel()
+			verifQuiesce() // whatever the cancellation triggers runs now
+		}
+	}
+	verifC06Ctx = ctx
+	verifC06Run(conn, cl, nil, "ERR_CIPHER", verifFlag("timeout"), 85)
+	verifC06Ctx = nil
+	verifQuiesce()
+	verifAssert("C06.cancel.no-extra-deadline", len(conn.deadlines) == 1)
+	verifReach("C06.cancel.done", true)
+}
+
+// a probe far longer than any internal buffer is read to the end
+func VH_C06_long_probe() {
+	cl, _, _ := verifMakeList(1, 2, false)
+	conn := &verifStreamConn{name: "client", remote: &net.TCPAddr{IP: net.IPv4(203, 0, 113, 5), Port: 50000}}
+	conn.reads = []verifSRead{{data: verifBytes("p1", 60)}}
+	bulk := (3 << 19) + verifChoice("odd", 2) // 1.5 MiB (+1)
+	if verifTier() > 0 {
+		bulk = 5 << 20
+	}
+	conn.bulk = bulk
+	verifC06Run(conn, cl, nil, "ERR_CIPHER", verifFlag("timeout"), 60+bulk)
+	verifReach("C06.long.done", true)
+}
+
+// the same after authentication: bad address header followed by a long tail
+func VH_C06_long_tail_after_badaddr() {
+	cl, specs, entries := verifMakeList(1, 1, false)
+	key := verifKey(specs[0].cipher, verifSecrets[specs[0].secret])
+	stream := verifClientStream(key, []byte{9, 1, 2, 3, 4, 5, 6, 7})
+	verifAssume(!entries[0].SaltGenerator.IsServerSalt(stream[:key.SaltSize()]))
+	conn := &verifStreamConn{name: "client", remote: &net.TCPAddr{IP: net.IPv4(203, 0, 113, 5), Port: 50000}}
+	conn.reads = []verifSRead{{data: stream}}
+	conn.bulk = 3 << 19
+	dialer := &verifDialer{conn: &verifStreamConn{name: "target", remote: &net.TCPAddr{IP: net.IPv4(93, 184, 216, 34), Port: 80}}}
+	h := NewStreamHandler(NewShadowsocksStreamAuthenticator(cl, nil, nil, nil), tcpReadTimeout)
+	h.SetTargetDialer(dialer)
+	m := &verifTCPMetrics{}
+	h.Handle(contextBackground(), conn, m)
+	verifAssert("C06.long-tail.status", len(m.closed) == 1 && m.closed[0] == "ERR_READ_ADDRESS")
+	verifAssert("C06.long-tail.drained", conn.bulk == 0 && conn.bytesRead == len(stream)+(3<<19) && conn.readsAfterEnd >= 1)
+	verifAssert("C06.long-tail.no-write", conn.writeCalls == 0 && conn.closedWrite == 0)
+	verifReach("C06.long-tail.done", true)
+}
+
+type verifFixedSaltGen struct{ n int }
+
+func (f verifFixedSaltGen) GetSalt(salt []byte) error {
+	for i := range salt {
+		salt[i] = byte(5*i + 11 + 37*f.n)
+	}
+	return nil
+}
+
+// C08: response salts stay fresh for every connection, also after a failure of the random source
+func VH_C08_fresh_after_rand_fault() {
+	cl, specs, entries := verifMakeList(1, 1, false)
+	key := verifKey(specs[0].cipher, verifSecrets[specs[0].secret])
+	ss := key.SaltSize()
+	n := 45
+	if verifTier() > 0 {
+		n = 90
+	}
+	verifRandFaultAt(verifChoice("fault-at", 3)) // one of the first three draws of the server fails
+	var salts [][]byte
+	failed := 0
+	for i := 0; i < n; i++ {
+		buf := &verifBuf{}
+		w := verifNewWriterWithSalt(buf, key, verifFixedSaltGen{i}) // client salts do not use the random source
+		w.Write([]byte{1, 93, 184, 216, 34, 0, 80, 'x'})
+		if entries[0].SaltGenerator.IsServerSalt(buf.b[:ss]) {
+			continue
+		}
+		conn := &verifStreamConn{name: "client", remote: &net.TCPAddr{IP: net.IPv4(203, 0, 113, 5), Port: 50000}}
+		conn.reads = []verifSRead{{data: buf.b}}
+		target := &verifStreamConn{name: "target", remote: &net.TCPAddr{IP: net.IPv4(93, 184, 216, 34), Port: 80}}
+		target.reads = []verifSRead{{data: []byte{'r'}}}
+		h := NewStreamHandler(NewShadowsocksStreamAuthenticator(cl, nil, nil, nil), tcpReadTimeout)
+		h.SetTargetDialer(&verifDialer{conn: target})
+		h.Handle(contextBackground(), conn, &verifTCPMetrics{})
+		if len(conn.written) >= ss {
+			salts = append(salts, conn.written[:ss])
+		} else {
+			failed++
+		}
+	}
+	verifRandFaultAt(-1)
+	verifAssert("C08.fresh.at-most-one-connection-lost", failed <= 1)
+	random := ss
+	if ss >= 20 {
+		random = ss - 4
+	}
+	for i := range salts {
+		for j := 0; j < i; j++ {
+			verifAssert("C08.fresh.salt-new-for-each-connection", verifFreshBytes(salts[i][:random], salts[j][:random]))
+		}
+	}
+	verifReach("C08.fresh.done", len(salts) >= n-2)
 }
